@@ -28,4 +28,25 @@ def fieldScalar (α : Type) [Field α] [LinearOrder α] (pow : α → α → α)
   minNormal := minNormal
   ofNat n := (n : α)
 
+section
+variable {α : Type} [Field α] [LinearOrder α] (pow : α → α → α) (sq nu : α → α) (lo mx mn : α)
+local notation "SF" => fieldScalar α pow sq nu lo mx mn
+@[simp] theorem sf_lt (a b : α) : (SF).lt a b = decide (a < b) := rfl
+@[simp] theorem sf_add (a b : α) : (SF).add a b = a + b := rfl
+@[simp] theorem sf_sub (a b : α) : (SF).sub a b = a - b := rfl
+@[simp] theorem sf_mul (a b : α) : (SF).mul a b = a * b := rfl
+@[simp] theorem sf_div (a b : α) : (SF).div a b = a / b := rfl
+@[simp] theorem sf_pow (a b : α) : (SF).pow a b = pow a b := rfl
+@[simp] theorem sf_zero : (SF).zero = (0 : α) := rfl
+@[simp] theorem sf_one : (SF).one = (1 : α) := rfl
+@[simp] theorem sf_minNormal : (SF).minNormal = mn := rfl
+@[simp] theorem sf_maxFinite : (SF).maxFinite = mx := rfl
+@[simp] theorem sf_lowest : (SF).lowest = lo := rfl
+@[simp] theorem sf_le (a b : α) : (SF).le a b = decide (a ≤ b) := by
+  simp only [Scalar.le, sf_lt]
+  by_cases h : b < a
+  · simp [h, not_le.mpr h]
+  · simp [h, not_lt.mp h]
+end
+
 end Fs
